@@ -61,6 +61,26 @@ func runC14(env *Env, rc *RunCtx) {
 		rc.Rec.Skipped = "config-with-intersection"
 		return
 	}
+	// two documents whose viewers go through their own group and through a SHARED
+	// group chain: one request short-circuits on its own group (leaving stragglers
+	// in the shared chain), the other needs the shared chain
+	gadget := false
+	if n0 := c.Cfg.NS[0]; c.Cfg.Enc == EncNone || (n0.FindRel("r0") != nil && n0.FindRel("r0").Rewrite == nil && !cfgTraverses(c.Cfg, n0.Name, "r0")) {
+		if t.Bool(2, 3) {
+			gadget = true
+			ns := n0.Name
+			set := func(o string) Subject { return Subject{Set: &SetRef{NS: ns, Obj: o, Rel: "r0"}} }
+			c.Tuples = append(c.Tuples,
+				Tuple{NS: ns, Obj: "docA", Rel: "r0", Sub: set("groupA")}, Tuple{NS: ns, Obj: "docA", Rel: "r0", Sub: set("shared")},
+				Tuple{NS: ns, Obj: "docB", Rel: "r0", Sub: set("groupB")}, Tuple{NS: ns, Obj: "docB", Rel: "r0", Sub: set("shared")},
+				// every membership is two hops below the set that is shared, so that the SQL
+				// "found" shortcut does not answer before the visited set is consulted
+				Tuple{NS: ns, Obj: "shared", Rel: "r0", Sub: set("deep")}, Tuple{NS: ns, Obj: "deep", Rel: "r0", Sub: set("deeper")}, Tuple{NS: ns, Obj: "deeper", Rel: "r0", Sub: Subject{ID: "bob"}},
+				Tuple{NS: ns, Obj: "groupA", Rel: "r0", Sub: set("innerA")}, Tuple{NS: ns, Obj: "innerA", Rel: "r0", Sub: Subject{ID: "alice"}},
+				Tuple{NS: ns, Obj: "groupB", Rel: "r0", Sub: Subject{ID: "carol"}})
+			rc.Count("probe_shared_group_gadget", 1)
+		}
+	}
 	rc.Rec.CaseHash = fmt.Sprintf("%016x", c.Hash())
 	_, class, _, err := env.PrepCase(c, Limits{Depth: c01Depth, Width: 65535, BatchMax: 12, BatchPar: 3})
 	if err != nil {
@@ -91,6 +111,17 @@ func runC14(env *Env, rc *RunCtx) {
 		mk   func() *Request
 	}
 	var specs []spec
+	if gadget {
+		ns := c.Cfg.NS[0].Name
+		for _, q := range []Tuple{{NS: ns, Obj: "docA", Rel: "r0", Sub: Subject{ID: "alice"}}, {NS: ns, Obj: "docB", Rel: "r0", Sub: Subject{ID: "bob"}}} {
+			its, err := env.Internal(q)
+			if err != nil {
+				env.T.Fatalf("harness: %v", err)
+			}
+			it := its[0]
+			specs = append(specs, spec{"check", "check " + q.String(), func() *Request { return &Request{Kind: "check", Tuple: it} }})
+		}
+	}
 	for i := 0; i < nReq; i++ {
 		switch t.Weighted(4, 2, 2, 2) {
 		case 0:
@@ -151,6 +182,12 @@ func runC14(env *Env, rc *RunCtx) {
 			specs = append(specs, spec{"list", fmt.Sprintf("list %s:*#%s", ns, rel), func() *Request { return &Request{Kind: "list", Query: q} }})
 		}
 	}
+	// the very same request twice: the two need the same storage calls at the same time
+	if len(specs) > 0 && t.Bool(1, 2) {
+		d := specs[t.Choose(len(specs))]
+		specs = append(specs, spec{d.kind, d.desc + " (duplicate)", d.mk})
+		rc.Count("probe_duplicate_requests", 1)
+	}
 	sig := func(r *Request) string {
 		switch v := r.result.(type) {
 		case CheckOut:
@@ -193,7 +230,18 @@ func runC14(env *Env, rc *RunCtx) {
 		for _, s := range specs {
 			reqs = append(reqs, s.mk())
 		}
-		r := env.Exec(et, reqs, NoFaults())
+		plan := NoFaults()
+		if et.Bool(1, 2) {
+			plan = WithStragglers()
+		}
+		// in half of the executions the requests do not all arrive at once
+		if et.Bool(1, 2) {
+			for range reqs {
+				plan.StartAfter = append(plan.StartAfter, []int{0, 0, 1, 2, 3, 5, 8}[et.Choose(7)])
+			}
+		}
+		r := env.Exec(et, reqs, plan)
+		rc.Count("stragglers_completed_late", r.Late)
 		rc.Rec.Execs++
 		rc.AddSchedule(r.TraceHash)
 		rc.Rec.ParkedSets += r.ParkedSets
@@ -326,4 +374,26 @@ func runC14Race(_ *Env, rc *RunCtx) {
 	if rc.WantSample {
 		rc.Rec.Sample = map[string]any{"burst": desc, "schedule": r.Trace}
 	}
+}
+
+
+func cfgTraverses(cfg *Config, ns, rel string) bool {
+	n := cfg.FindNS(ns)
+	found := false
+	var walk func(e *Expr)
+	walk = func(e *Expr) {
+		if e == nil {
+			return
+		}
+		if e.Kind == ExTraverse && e.Rel == rel {
+			found = true
+		}
+		for _, c := range e.Children {
+			walk(c)
+		}
+	}
+	for _, r := range n.Rels {
+		walk(r.Rewrite)
+	}
+	return found
 }
